@@ -45,12 +45,29 @@ RFEAT = {v: k for k, v in FEAT.items()}
 FEAT_BITS = ["area", "iou", "circ", "lid", "pos", "tid", "perim", "axes"]  # bit i of a feature mask
 
 
+CUSTOM_NAMES = {"time_attr": "t", "pos_attr": "position", "tracklet_attr": "trk", "lineage_attr": "lin"}
+
+
+def real_key(tr, model_name):
+    """real attribute name of a model feature name on this tracks object"""
+    f = tr.features
+    if model_name == "tid":
+        return f.tracklet_key
+    if model_name == "lid":
+        return f.lineage_key
+    if model_name == "time":
+        return f.time_key
+    if model_name == "pos" and isinstance(f.position_key, str):
+        return f.position_key
+    return FEAT[model_name]
+
+
 class Cfg:
     """One configuration of a run: universe + how the tracks object is constructed."""
 
     def __init__(self, N=3, T=3, dims=(), scale=(), use_scale=True, reg_cust=False,
                  per_axis_pos=False, name="struct", enable=(), rebuild=None, embed=None, max_stroke=0, node_shift=0,
-                 seg_dtype="uint16", formats=None):
+                 seg_dtype="uint16", formats=None, custom_keys=False):
         self.N, self.T = N, T
         self.dims = tuple(dims)
         self.scale = tuple(scale) if scale else tuple(1 for _ in dims)
@@ -71,6 +88,8 @@ class Cfg:
         self.max_stroke = max_stroke    # 0: all strokes are fired; k: only strokes of <= k pixels
         self.seg_dtype = seg_dtype      # dtype of the label array
         self.formats = formats          # round-trip formats of the export harness (None = csv, geff, internal)
+        # attribute names chosen by the caller: time "t", position "position", track id "trk", lineage id "lin"
+        self.custom_keys = custom_keys
         self.P = int(np.prod(self.dims)) if self.dims else 0
 
     @property
@@ -82,7 +101,8 @@ class Cfg:
                 "use_scale": self.use_scale, "reg_cust": self.reg_cust,
                 "per_axis_pos": self.per_axis_pos, "name": self.name, "enable": self.enable,
                 "rebuild": self.rebuild, "embed": self.embed, "max_stroke": self.max_stroke, "node_shift": self.node_shift,
-                "seg_dtype": self.seg_dtype, "formats": self.formats}
+                "seg_dtype": self.seg_dtype, "formats": self.formats,
+                "custom_keys": self.custom_keys}
 
     @staticmethod
     def from_json(d):
@@ -117,6 +137,8 @@ class Driver:
             kw = {}
             if cfg.per_axis_pos:
                 kw["pos_attr"] = ["y", "x"]
+            if cfg.custom_keys:
+                kw.update(CUSTOM_NAMES)
             self.tracks = SolutionTracks(g, ndim=3, **kw)
         if cfg.reg_cust:
             self.tracks.features[CUSTOM_KEY] = {
@@ -189,6 +211,8 @@ class Driver:
         else:
             if cfg.per_axis_pos and not cfg.has_seg:
                 kw["pos_attr"] = ["y", "x"]
+            if cfg.custom_keys and not cfg.has_seg:
+                kw.update(CUSTOM_NAMES)
             new = SolutionTracks.from_tracks(Tracks(g, **kw)) if mode & 4 else SolutionTracks(g, **kw)
         self.tracks = new
         self._after_construction()
@@ -244,8 +268,12 @@ class Driver:
             pixels = None
             if self.cfg.has_seg:
                 pixels = self.pixels_of(t, 1)
+                # the caller's attribute dict carries (stale) values of computed features, e.g. copied from another
+                # node: the annotators must overwrite them with the measurements of the given pixels
+                attrs["area"] = 999.0
+                attrs["pos"] = [7.0] * len(self.cfg.dims)
             else:
-                attrs["pos"] = user_pos(n)
+                attrs[real_key(tr, "pos")] = user_pos(n)
             return AddNode(tr, n, attrs, pixels)
         if k == KP_DELNODE:
             return DeleteNode(tr, c[1])
@@ -290,7 +318,7 @@ class Driver:
                         if fl & 16:
                             del attrs["x"]          # only part of the per-axis position
                     elif not fl & 16:
-                        attrs["pos"] = user_pos(n + self.nshift)
+                        attrs[real_key(tr, "pos")] = user_pos(n + self.nshift)
                 pixels = None
                 if fl & 32 and not self.cfg.has_seg:
                     pixels = (np.array([t]), np.array([0]), np.array([0]))   # pixels without a segmentation
@@ -305,7 +333,7 @@ class Driver:
                 UserSwapPredecessors(tr, (c[1], c[2]))
             elif k == K_SETATTR:
                 key = {1: CUSTOM_KEY, 2: tr.features.time_key, 3: tr.features.tracklet_key,
-                       4: tr.features.lineage_key, 5: "pos", 6: "area", 7: "iou",
+                       4: tr.features.lineage_key, 5: real_key(tr, "pos"), 6: "area", 7: "iou",
                        8: "circularity"}[c[2]]
                 # model value v is stored as v - 1, so that the falsy value 0 occurs
                 val = c[3] - 1 if c[2] != 5 else [float(c[3]), float(c[3])]
@@ -329,12 +357,12 @@ class Driver:
                     updated.append((tuple(a[sel] for a in px), ov))
                 UserUpdateSegmentation(tr, v, updated, tf // 2 - self.shift, force=bool(tf % 2))
             elif k == K_ENABLE:
-                keys = [FEAT[FEAT_BITS[i]] for i in range(len(FEAT_BITS)) if (c[1] >> i) & 1]
+                keys = [real_key(tr, FEAT_BITS[i]) for i in range(len(FEAT_BITS)) if (c[1] >> i) & 1]
                 if c[1] & 256:
                     keys.append("no_such_feature")
                 tr.enable_features(keys, recompute=bool(c[2]))
             elif k == K_DISABLE:
-                keys = [FEAT[FEAT_BITS[i]] for i in range(len(FEAT_BITS)) if (c[1] >> i) & 1]
+                keys = [real_key(tr, FEAT_BITS[i]) for i in range(len(FEAT_BITS)) if (c[1] >> i) & 1]
                 if c[1] & 256:
                     keys.append("no_such_feature")
                 tr.disable_features(keys)
@@ -475,8 +503,14 @@ def project(tr, cfg: Cfg, queries=False, shift=0, nshift=0):
             arr = sub
         seg = [int(x) for x in arr.reshape(-1)]
     shpv, shpr = shape_digests(tr, cfg)
-    act = sorted(RFEAT.get(k, k) for k in tr.annotators.features)
-    reg = sorted({"pos" if k in ("z", "y", "x") else RFEAT.get(k, k) for k in tr.features})
+    rmap = dict(RFEAT)
+    rmap.update({tk: "time", idk: "tid"})
+    if lk is not None:
+        rmap[lk] = "lid"
+    if isinstance(tr.features.position_key, str):
+        rmap[tr.features.position_key] = "pos"
+    act = sorted(rmap.get(k, k) for k in tr.annotators.features)
+    reg = sorted({"pos" if k in ("z", "y", "x") else rmap.get(k, k) for k in tr.features})
     out = {
         "time": time, "E": E, "tid": tid, "lid": lid, "t2n": t2n, "l2n": l2n,
         "maxT": int(ta.max_tracklet_id) + shift, "maxL": int(ta.max_lineage_id) + shift,
@@ -641,6 +675,10 @@ def alphabet(drv: Driver, kinds=None, wide=True):
         out += [[KP_DELEDGE, u, v, 0, 0] for u in nodes for v in nodes]
     if K_ENABLE in kinds:
         masks = SWITCH_MASKS_SEG if cfg.has_seg else SWITCH_MASKS_NOSEG
+        if len(cfg.dims) == 3:
+            # (3D: funtracks' ellipsoid axes raise "math domain error" on masks of separated voxels - an observation
+            #  outside the listed properties, DESIGN 0.5; the axes feature is left out of the 3D switch calls)
+            masks = [m for m in masks if not m & 128]
         out += [[K_ENABLE, m, r, 0, 0] for m in masks for r in (0, 1)]
         out += [[K_DISABLE, m, 0, 0, 0] for m in masks]
     if K_REBUILD in kinds:
